@@ -537,10 +537,23 @@ func runC17Jobs(h *c17Hook, jobs []*c17Job) {
 // ---- a real child through Cbhandler ----
 
 // childEnv starts `/usr/bin/env -0` through callback.Cbhandler and returns the PSA_DHCPC_* entries the child saw.
+// One handler per interface name is kept and used again: what a call passes to the child must not depend on earlier calls.
+type childHandler struct {
+	buf bytes.Buffer
+	h   func(context.Context, *libif.Ifconfig)
+}
+
+var childHandlers = map[string]*childHandler{}
+
 func childEnv(ifname string, cf *libif.Ifconfig) ([]string, error) {
-	var buf bytes.Buffer
-	l := log.New(&buf, "", 0)
-	h := callback.Cbhandler("/usr/bin/env -0", &net.Interface{Name: ifname}, l)
+	ch := childHandlers[ifname]
+	if ch == nil {
+		ch = &childHandler{}
+		ch.h = callback.Cbhandler("/usr/bin/env -0", &net.Interface{Name: ifname}, log.New(&ch.buf, "", 0))
+		childHandlers[ifname] = ch
+	}
+	ch.buf.Reset()
+	buf, h := &ch.buf, ch.h
 	ctx, cancel := context.WithTimeout(context.Background(), 30*time.Second)
 	defer cancel()
 	h(ctx, cf)
@@ -639,7 +652,8 @@ func TestC17(t *testing.T) {
 			c.add(1704, "child/"+kind, true, append(args(B(ifname)), x.rawArgs()...), bList(got))
 			c.add(1712, "child/"+kind, true, bList(got), args(L{1}))
 		}
-		for _, ifname := range []string{"eth0", "x\ny", "a=b;c", "\xff\x00"} {
+		// calls without a configuration (the address was removed): on fresh handlers and on handlers that passed leases before
+		for _, ifname := range []string{"eth0", "x\ny", "a=b;c", "\xff\x00", "wlan0", "br-lan", "eth0.100", "en;reboot", "a b", "eth0"} {
 			got, err := childEnv(ifname, nil)
 			if err != nil {
 				t.Errorf("child process (nil configuration): %v", err)
